@@ -55,7 +55,15 @@ func replayDriveOne(cfg Config, v *Violation) int {
 	defer f.Close()
 	w := &driveWorld{sy: NewSymb(), rng: rand.New(rand.NewSource(int64(cfg.Seed)*100003 + int64(line.Step.N))), out: json.NewEncoder(f),
 		h: line.Step.N, live: map[int]bool{}, held: map[int]bool{}}
-	w.run(maxN, blocks)
+	if optVal(v.X, "big", "") == "1" {
+		w.lcBroken = true
+		w.runBig(maxN)
+	} else if optVal(v.X, "big", "") == "2" {
+		w.lcBroken = true
+		w.runSparse(maxN)
+	} else {
+		w.run(maxN, blocks)
+	}
 	for _, fl := range w.fails {
 		for _, p := range fl.Props {
 			if p == v.Property {
@@ -125,6 +133,17 @@ type driveWorld struct {
 	lcLossy   bool // the last undo was of a block with a non-empty ToDestroy
 	held      map[int]bool // what the light client was asked to hold (bookkeeping of the requests made)
 	nmut      int
+	script    *scriptedBlock // scripted scenarios (sparse tall forests): the next block
+}
+
+// scriptedBlock fixes the deletions, the number of additions and which
+// additions the partial forests remember; light = no proof/upd events (TLC
+// could not evaluate them at that size in reasonable time).
+type scriptedBlock struct {
+	d     []int
+	k     int
+	rem   func(slot int) bool
+	light bool
 }
 
 type driveSaved struct {
@@ -165,6 +184,9 @@ func runDrive(cfg Config, in io.Reader, extra string, workers int) int {
 		if optVal(extra, "big", "") == "1" {
 			w.lcBroken = true // no light client in the large histories
 			w.runBig(maxN)
+		} else if optVal(extra, "big", "") == "2" {
+			w.lcBroken = true
+			w.runSparse(maxN)
 		} else {
 			w.run(maxN, blocks)
 		}
@@ -377,9 +399,15 @@ func (w *driveWorld) run(maxN, blocks int) {
 }
 
 func (w *driveWorld) block(maxN int) {
-	d := w.chooseDeletions()
+	sc := w.script
+	var d []int
 	k := 0
-	if room := maxN - int(w.n); room > 0 {
+	if sc != nil {
+		d, k = append([]int{}, sc.d...), sc.k
+	} else {
+		d = w.chooseDeletions()
+	}
+	if room := maxN - int(w.n); room > 0 && sc == nil {
 		k = w.rng.Intn(18)
 		if k > room {
 			k = room
@@ -400,11 +428,13 @@ func (w *driveWorld) block(maxN int) {
 		}
 		proof = pr
 		Rn := treeRows(w.n)
-		w.emitLazy(func(e *driveEvent) {
-			e.Inst = "pollard"
-			e.S = d
-			e.T, e.P = w.jTargets(pr.Targets, Rn), w.sy.Ts(pr.Proof)
-		}, "proof")
+		if sc == nil || !sc.light {
+			w.emitLazy(func(e *driveEvent) {
+				e.Inst = "pollard"
+				e.S = d
+				e.T, e.P = w.jTargets(pr.Targets, Rn), w.sy.Ts(pr.Proof)
+			}, "proof")
+		}
 	}
 	adds := make([]Hash, k)
 	leaves := make([]utreexo.Leaf, k)
@@ -421,12 +451,14 @@ func (w *driveWorld) block(maxN int) {
 		return
 	}
 	Rpre, Rpost := treeRows(w.n), treeRows(w.n+uint64(k))
-	w.emitLazy(func(e *driveEvent) {
-		e.D, e.K, e.Prev = d, k, ud.PrevNumLeaves
-		e.Td = w.jTargets(ud.ToDestroy, Rpost)
-		e.Ndel = w.jPosHash(ud.NewDelPos, ud.NewDelHash, Rpre)
-		e.Nadd = w.jPosHash(ud.NewAddPos, ud.NewAddHash, Rpost)
-	}, "upd")
+	if sc == nil || !sc.light {
+		w.emitLazy(func(e *driveEvent) {
+			e.D, e.K, e.Prev = d, k, ud.PrevNumLeaves
+			e.Td = w.jTargets(ud.ToDestroy, Rpost)
+			e.Ndel = w.jPosHash(ud.NewDelPos, ud.NewDelHash, Rpre)
+			e.Nadd = w.jPosHash(ud.NewAddPos, ud.NewAddHash, Rpost)
+		}, "upd")
+	}
 
 	// the light client: remembers a random subset of the additions
 	var rem []uint32
@@ -507,6 +539,9 @@ func (w *driveWorld) block(maxN int) {
 			pslots := []int{}
 			for i := range lv {
 				lv[i] = utreexo.Leaf{Hash: adds[i], Remember: w.rng.Intn(2) == 0}
+				if sc != nil && sc.rem != nil {
+					lv[i].Remember = sc.rem(int(w.n) + i)
+				}
 				if lv[i].Remember {
 					pslots = append(pslots, int(w.n)+i)
 				}
@@ -706,6 +741,13 @@ func (w *driveWorld) partialOps() {
 				}
 			}
 		}
+		w.dumpStored(in)
+	}
+}
+
+// dumpStored records what a partial forest stores (judged by TLC: StoredOK).
+func (w *driveWorld) dumpStored(in *Inst) {
+	{
 		// dump
 		in := in
 		type nd struct {
